@@ -14,6 +14,7 @@
 import PolyVerif.Lemmas.Solids
 import PolyVerif.Lemmas.SolidsGeom
 import PolyVerif.Lemmas.SolidsMerge
+import PolyVerif.Lemmas.SolidsCode
 import PolyVerif.Gen.CubeTable
 import Mathlib.Tactic
 
@@ -78,11 +79,43 @@ theorem quadTris_eq_table : quadTris = unflat Gen.CubeTable.quadIndices := by de
 /-- the box built from six quads is closed once its 24 vertices are merged into the 8 corners -/
 theorem cubeQuads_closed_mod_merge : ClosedMod cubeQuadsPt cubeQuadsTris := by decide
 
+/-! ## The rotated parts as the code builds them = the exact forms (over ℝ)
+
+`Cube.UnweldedQuads` builds its six faces by rotating a flat quad with `quaternion.FromTheta(kπ/2, ±axis)` and
+translating it; `Cylinder.ToMesh` rotates the bottom circle by `FromTheta(π, (1,0,0))`.  `Model/SolidsCode.lean` models
+exactly that, on top of the quaternion code regenerated from /repo (`Gen.Transform`).  The hand-written corner table
+`cubeQuadsCornerTable` (hence `cubeQuadsPt`, `cubeQuadsPos`) and the `(x, −y, −z)` form of the cylinder's bottom cap
+are DERIVED from that construction here, not assumed. -/
+
+/-- **the corner table is proved from the code's construction**: rotating and translating the six quads as
+    `Cube.UnweldedQuads` does puts vertex `v` exactly at corner `cubeQuadsCornerTable[v]` of the box, ∀ w h d -/
+theorem cubeQuads_positions_eq_table (w h d : ℝ) {v : Nat} (hv : v < cubeQuadsNV) :
+    cubeQuadsPosCode w h d v = cornerPos w h d (cubeQuadsPt v) :=
+  cubeQuadsPosCode_eq w h d hv
+
+/-- the rotated `Up` normals of the six quads are the six axis directions +y, −y, −x, +x, +z, −z -/
+theorem cubeQuads_normals_eq_table {v : Nat} (hv : v < cubeQuadsNV) :
+    (cubeQuadsNormalCode v : V3 ℝ) = cubeQuadsNormal v :=
+  cubeQuadsNormalCode_eq hv
+
+/-- the cylinder as the code builds it (bottom cap = circle rotated by `FromTheta(π, (1,0,0))`, then translated)
+    is the exact form `cylinderPos` (bottom cap `(x, −h/2, −z)`), for every vertex -/
+theorem cylinder_positions_eq_exact_form (r H : ℝ) (sides v : Nat) :
+    cylinderPosCode r H sides v = cylinderPos r H sides v :=
+  cylinderPosCode_eq r H sides v
+
+/-- … and its bottom-cap normals `(0,1,0)` rotated by the same quaternion are `(0,−1,0)` -/
+theorem cylinder_normals_eq_exact_form (sides v : Nat) :
+    (cylinderNormalCode sides v : V3 ℝ) = cylinderNormal sides v :=
+  cylinderNormalCode_eq sides v
+
 /-! ## The merge maps merge exactly the coincident positions (over ℝ)
 
 "once coincident positions are merged": the symbolic merge maps used above identify two vertices if and only if
-their real positions are equal — neither too much (which could fake closedness) nor too little (which could hide a
-doubled edge). -/
+their real positions — as the constructors compute them — are equal: neither too much (which could fake closedness)
+nor too little (which could hide a doubled edge).  For the six-quad box and the cylinder the positions are the
+code-built ones (`cubeQuadsPosCode`, `cylinderPosCode`); the statement therefore has content for the hand-written
+corner table (it goes through `cubeQuads_positions_eq_table`). -/
 
 /-- the welded sphere has no two vertices at the same position (it needs no merging) -/
 theorem uvSphere_positions_distinct {rows cols : Nat} {r : ℝ} (hr : 0 < r) (hR : 2 ≤ rows) (hC : 3 ≤ cols)
@@ -106,14 +139,16 @@ theorem uvSphereUnwelded_merge_exact {rows cols : Nat} {r : ℝ} (hr : 0 < r) (h
 /-- capped cylinder: `cylinderPt` identifies two vertices iff their positions coincide (seam column, cap rims) -/
 theorem cylinder_merge_exact {sides : Nat} {r H : ℝ} (hr : 0 < r) (hH : 0 < H) (hS : 3 ≤ sides)
     {v w : Nat} (hv : v < cylinderNV sides false false) (hw : w < cylinderNV sides false false) :
-    cylinderPt sides v = cylinderPt sides w ↔ cylinderPos r H sides v = cylinderPos r H sides w :=
-  cylinder_merge_exact_aux hr hH hS hv hw
+    cylinderPt sides v = cylinderPt sides w ↔ cylinderPosCode r H sides v = cylinderPosCode r H sides w := by
+  rw [cylinderPosCode_eq, cylinderPosCode_eq]
+  exact cylinder_merge_exact_aux hr hH hS hv hw
 
-/-- six-quad box: the corner table identifies two vertices iff their positions coincide -/
+/-- six-quad box: the corner table identifies two vertices iff the positions the code builds for them coincide -/
 theorem cubeQuads_merge_exact {w h d : ℝ} (hw : 0 < w) (hh : 0 < h) (hd : 0 < d)
     {v v' : Nat} (hv : v < cubeQuadsNV) (hv' : v' < cubeQuadsNV) :
-    cubeQuadsPt v = cubeQuadsPt v' ↔ cubeQuadsPos w h d v = cubeQuadsPos w h d v' :=
-  cubeQuads_merge_exact_aux hw hh hd hv hv'
+    cubeQuadsPt v = cubeQuadsPt v' ↔ cubeQuadsPosCode w h d v = cubeQuadsPosCode w h d v' := by
+  rw [cubeQuadsPosCode_eq w h d hv, cubeQuadsPosCode_eq w h d hv']
+  exact cubeQuads_merge_exact_aux hw hh hd hv hv'
 
 /-- the welded box has no two vertices at the same position -/
 theorem cubeWelded_positions_distinct {w h d : ℝ} (hw : 0 < w) (hh : 0 < h) (hd : 0 < d)
@@ -167,32 +202,33 @@ theorem cube_normals_outward {w h d : ℝ} (hw : 0 < w) (hh : 0 < h) (hd : 0 < d
     NormalsOutward (cubeWeldedPos w h d) (cubeWeldedNormal w h d) cubeWeldedTris :=
   normalsOutward_of_outward (cube_outward hw hh hd)
 
-/-- **six-quad box faces point outward** (exact-form positions: each vertex at its corner) -/
+/-- **six-quad box faces point outward** (positions as the code builds them: rotated, translated quads) -/
 theorem cubeQuads_outward {w h d : ℝ} (hw : 0 < w) (hh : 0 < h) (hd : 0 < d) :
-    OutwardAt (cubeQuadsPos w h d) O3 cubeQuadsTris :=
-  cubeQuads_outward_aux hw hh hd
+    OutwardAt (cubeQuadsPosCode w h d) O3 cubeQuadsTris :=
+  outwardAt_congr (cubeQuads_pos_agree w h d) (cubeQuads_outward_aux hw hh hd)
 
 /-- **capped cylinder faces point outward**, all `sides ≥ 3`, every radius and height `> 0`: side triangles have
     signed volume `h·r²·sin(2π/sides)/6`, cap triangles `h·r²·sin(2π/sides)/12`, against the centre.
-    (Positions: side and top cap as computed by cylinder.go / circle.go, bottom cap in the exact form of the
-    rotation by π about X.) -/
+    (Positions as the code builds them: side and top cap as computed by cylinder.go / circle.go, bottom cap = circle
+    rotated by the quaternion `FromTheta(π, (1,0,0))` and translated.) -/
 theorem cylinder_outward {sides : Nat} {r H : ℝ} (hr : 0 < r) (hH : 0 < H) (hS : 3 ≤ sides) :
-    OutwardAt (cylinderPos r H sides) O3 (cylinderTris sides false false) :=
-  cylinder_outward_aux hr hH hS
+    OutwardAt (cylinderPosCode r H sides) O3 (cylinderTris sides false false) := by
+  rw [cylinderPosCode_funext]; exact cylinder_outward_aux hr hH hS
 
 /-- **cylinder normals**: the side normals `(cos a, ±0.1, sin a).Normalized()` and the cap normals `(0, ±1, 0)` have
     positive dot product with the geometric normal of every incident face -/
 theorem cylinder_normals_outward {sides : Nat} {r H : ℝ} (hr : 0 < r) (hH : 0 < H) (hS : 3 ≤ sides) :
-    NormalsOutward (cylinderPos r H sides) (cylinderNormal sides) (cylinderTris sides false false) :=
-  cylinder_normals_outward_aux hr hH hS
+    NormalsOutward (cylinderPosCode r H sides) (cylinderNormalCode sides) (cylinderTris sides false false) := by
+  rw [cylinderPosCode_funext, cylinderNormalCode_funext]; exact cylinder_normals_outward_aux hr hH hS
 
-example : OutwardAt (cylinderPos (1 : ℝ) 2 3) O3 (cylinderTris 3 false false) :=
+example : OutwardAt (cylinderPosCode (1 : ℝ) 2 3) O3 (cylinderTris 3 false false) :=
   cylinder_outward (by norm_num) (by norm_num) (by decide)
 
-/-- **six-quad box normals** (`Up` rotated with each face, exact form) point to the outer side of their face -/
+/-- **six-quad box normals** (`Up` rotated with each face by the code's quaternions) point to the outer side of
+    their face -/
 theorem cubeQuads_normals_outward {w h d : ℝ} (hw : 0 < w) (hh : 0 < h) (hd : 0 < d) :
-    NormalsOutward (cubeQuadsPos w h d) cubeQuadsNormal cubeQuadsTris :=
-  cubeQuads_normals_outward_aux hw hh hd
+    NormalsOutward (cubeQuadsPosCode w h d) cubeQuadsNormalCode cubeQuadsTris :=
+  normalsOutward_congr (cubeQuads_pos_agree w h d) cubeQuads_nrm_agree (cubeQuads_normals_outward_aux hw hh hd)
 
 /-- the sphere mesh is an INSCRIBED polyhedron: every vertex used by a triangle lies on the sphere of radius `r`
     (so, being closed and outward, it bounds a polyhedron inside the ball) -/
@@ -221,22 +257,22 @@ theorem cube_volume (w h d : ℝ) : volume6 (cubeWeldedPos w h d) cubeWeldedTris
   rw [show cubeWeldedTris = unflat Gen.CubeTable.cubeVertIndices from rfl, cube_volume_aux]; ring
 
 /-- the six-quad box encloses exactly `w·h·d` -/
-theorem cubeQuads_volume (w h d : ℝ) : volume6 (cubeQuadsPos w h d) cubeQuadsTris / 6 = w * h * d := by
-  rw [cubeQuads_volume_aux]; ring
+theorem cubeQuads_volume (w h d : ℝ) : volume6 (cubeQuadsPosCode w h d) cubeQuadsTris / 6 = w * h * d := by
+  rw [volume6_congr (cubeQuads_pos_agree w h d), cubeQuads_volume_aux]; ring
 
 /-- **capped cylinder**: the enclosed volume is that of the prism over the inscribed regular `sides`-gon,
     `(sides/2)·sin(2π/sides)·r²·H`, for all `sides ≥ 3` -/
 theorem cylinder_volume {sides : Nat} (r H : ℝ) (hS : 3 ≤ sides) :
-    volume6 (cylinderPos r H sides) (cylinderTris sides false false) / 6 =
+    volume6 (cylinderPosCode r H sides) (cylinderTris sides false false) / 6 =
       (sides : ℝ) / 2 * Real.sin (2 * Real.pi / sides) * r ^ 2 * H := by
-  rw [cylinder_volume_aux r H hS]; ring
+  rw [cylinderPosCode_funext, cylinder_volume_aux r H hS]; ring
 
 /-- … which is at most the analytic volume `π r² H` and approaches it: relative deficit `≤ 2π²/(3·sides²)` -/
 theorem cylinder_volume_bounds {sides : Nat} {r H : ℝ} (hr : 0 < r) (hH : 0 < H) (hS : 3 ≤ sides) :
-    volume6 (cylinderPos r H sides) (cylinderTris sides false false) / 6 ≤ Real.pi * r ^ 2 * H ∧
+    volume6 (cylinderPosCode r H sides) (cylinderTris sides false false) / 6 ≤ Real.pi * r ^ 2 * H ∧
     Real.pi * r ^ 2 * H * (1 - 2 * Real.pi ^ 2 / (3 * (sides : ℝ) ^ 2)) ≤
-      volume6 (cylinderPos r H sides) (cylinderTris sides false false) / 6 :=
-  cylinder_volume_bounds_aux hr hH hS
+      volume6 (cylinderPosCode r H sides) (cylinderTris sides false false) / 6 := by
+  rw [cylinderPosCode_funext]; exact cylinder_volume_bounds_aux hr hH hS
 
 /-- **UV sphere**: the enclosed volume in closed form, `(cols·r³/3)·sin(2π/cols)·(1 + cos(π/rows))`, for all
     `rows ≥ 2`, `cols ≥ 3` (the stack of regular-`cols`-gon frusta inscribed in the sphere) -/
